@@ -49,6 +49,10 @@ def run(ck: Checker, prog: Program, tier: str):
     ck.guard(_r5, ck, rel)
     ck.guard(_r5, ck, cla)
     ck.guard(_peak_index, ck, prog)
+    # peak_index rests on the package's peak finder (rule of C08)
+    from . import c08
+    with ck.borrow(c08, "C16.R4+"):
+        ck.guard(c08._r1, ck, prog)
 
 
 OPAQUE = ("trim_curve", "peak_index", "pass_fail", "is_isnot", "colored")
